@@ -545,6 +545,21 @@ func delPeer(t *Torrent, p *peer.Peer) bool {
 			t.peers = nil
 		}
 	}
+	// release the chunks of any requests that were queued for the peer
+	// after it had stopped listening
+drain:
+	for {
+		select {
+		case e := <-p.Event:
+			if r, ok := e.(peer.PeerRequest); ok {
+				for _, c := range r.Chunks {
+					noteInFlight(t, c, false)
+				}
+			}
+		default:
+			break drain
+		}
+	}
 	// at this point, the dying peer won't reply to a GetPex request
 	addr := p.GetAddr()
 	if addr.Port() > 0 {
